@@ -1315,6 +1315,14 @@ def fixed_family():
     add("mark[separated_list]", _u("separated_list", _u("mark_bytes", _u("non_empty_list", a), set=[97], m=1), sep=b_))
     add("and[marked,unmarked]", _bin("and", _n("separated_cat", [_w("hi"), _w("yo")], sep={"op": "blanks_strict"}), _u("list", _u("mark", anyb, table=tbl))))
     add("minus[marked]", _bin("minus", _u("list", _u("mark_bytes", abc, set=[97], m=1)), _n("cat", [{"op": "any"}, _w("cc"), {"op": "any"}])))
+    # successive marker operations on languages whose letters do not appear in the expression (any(), complements):
+    # the second operation must compose with the first one's side table (added after seeded C19-d)
+    any_ = {"op": "any"}
+    add("mark2[any]", _u("mark_bytes", _u("mark_bytes", any_, set=[97], m=1), set=[98], m=2))
+    add("mark2[any,replace]", _u("replace_markers", _u("mark_bytes", any_, set=[97], m=1), map=[[1, 7]]))
+    add("mark2[minus]", _u("mark_bytes", _u("mark_bytes", _bin("minus", any_, _w("x")), set=[97], m=1), set=[98], m=2))
+    add("mark2[neg,replace]", _u("replace_markers", _u("mark_bytes", _u("neg", _w("b")), set=[97], m=1), map=[[1, 3]]))
+    add("mark3[any]", _u("mark_bytes", _u("mark_bytes", _u("mark_bytes", any_, set=[97], m=1), set=[98], m=2), set=[99], m=0))
     add("mark[same-byte-two-markers]", _n("cat", [_u("mark_bytes", a, set=[97], m=1), _u("list", b_), _u("mark_bytes", a, set=[97], m=2)]))
     add("mark[ambiguous]", _bin("or", _u("mark_bytes", ab, set=[97], m=1), _u("mark_bytes", ab, set=[97], m=2)))
     # every word has ONE marking, but the marker of 'a' depends on the next byte: no letter-to-letter
